@@ -227,7 +227,22 @@ pub fn err_kind(e: &NetError) -> String {
 /// The real `TtlConfig` for a model `Config`. `TtlBounds` has private fields and no constructor,
 /// so it is built the way a user's configuration file builds it: through its `Deserialize` impl
 /// (whole seconds).
+/// Configurations without per-type overrides are built, for every second one of them (chosen by a
+/// hash of the bounds, so a replay makes the same choice), the way an application configures the
+/// resolver: `ResolverOpts` fields through `TtlConfig::from_opts`.
+pub fn built_via_opts(c: &Config) -> bool {
+    c.by_type.is_empty() && vh::prng::fnv64(c.default.to_json().to_string().as_bytes()) % 2 == 0
+}
+
 pub fn mk_ttl_config(c: &Config) -> TtlConfig {
+    if built_via_opts(c) {
+        let mut opts = hickory_resolver::config::ResolverOpts::default();
+        opts.positive_min_ttl = c.default.pos_min.map(Duration::from_secs);
+        opts.positive_max_ttl = c.default.pos_max.map(Duration::from_secs);
+        opts.negative_min_ttl = c.default.neg_min.map(Duration::from_secs);
+        opts.negative_max_ttl = c.default.neg_max.map(Duration::from_secs);
+        return TtlConfig::from_opts(&opts);
+    }
     let b = |b: &crate::refcache::Bounds| {
         let mut m = serde_json::Map::new();
         if let Some(v) = b.pos_min {
